@@ -964,6 +964,8 @@ def smtp_check(sc, cfg, obs, info):
                     allowed = {"ok": {2}, "perm": {5}, "temp": {4}, "neg": {4, 5}, "racy": {2, 4}, "open": {2, 5}}[oc]
                     if oc in ("neg", "racy", "open"):
                         info["slack"] += 1
+                if lenient:
+                    allowed = set(allowed) | {4}        # the injected failure may hit this submission: temporary refusal, nothing queued
                 if r >= len(replies):
                     if lenient:
                         return degrade()
